@@ -28,12 +28,13 @@ CONSTANTS MaxLoops,        \* bound on validate loops of one session
 
 Kinds == {"manifest", "patch", "init", "media"}
 Families == {"none", "decode_time", "sequence_number", "trun_offset", "saio_offset",
-             "init_box", "timeline_gap", "mpd_attr", "ast_changed"}
+             "init_box", "timeline_gap", "mpd_attr", "ast_changed", "patch_attr"}
 
 TargetOf(fam) ==
     IF fam \in {"decode_time", "sequence_number", "trun_offset", "saio_offset"} THEN "media"
     ELSE IF fam = "init_box" THEN "init"
     ELSE IF fam \in {"timeline_gap", "mpd_attr", "ast_changed"} THEN "manifest"
+    ELSE IF fam = "patch_attr" THEN "patch"     \* a mandatory attribute removed from an MPD patch document (5.15.3.2)
     ELSE "nothing"
 
 (* what a configuration must offer for the family to be applicable at all *)
@@ -41,6 +42,7 @@ Applicable(fam, cfg) ==
     /\ (fam = "saio_offset" => cfg.encrypted)
     /\ (fam = "timeline_gap" => cfg.timeline)
     /\ (fam = "ast_changed" => cfg.live)
+    /\ (fam = "patch_attr" => cfg.patch)
 
 VARIABLES phase,      \* idle | loading | ready | validated | slept | fetched | done
           cfg,        \* [live, encrypted, timeline, patch : BOOLEAN]
